@@ -26,18 +26,19 @@ type F1sProgram struct {
 }
 
 type f1sSpec struct {
-	sig    string
-	enable string            // directives
-	decls  string            // module-scope declarations (resources, workgroup variables, structs)
-	ops    []string          // operand types ($0, $1, ... in pre/expr)
-	params map[byte]string   // extra entry-point parameters per stage ('c','f','v')
-	pre    string            // statements before the result (one per line, already terminated)
-	expr   string            // result expression ("" = statements only)
-	rty    string            // type of expr
-	stages string            // subset of "cfv"
-	wg     string            // workgroup size text (compute), default "1"
-	shared bool
-	image  bool
+	sig     string
+	enable  string          // directives
+	decls   string          // module-scope declarations (resources, workgroup variables, structs)
+	ops     []string        // operand types ($0, $1, ... in pre/expr)
+	params  map[byte]string // extra entry-point parameters per stage ('c','f','v')
+	pre     string          // statements before the result (one per line, already terminated)
+	expr    string          // result expression ("" = statements only)
+	rty     string          // type of expr
+	stages  string          // subset of "cfv"
+	wg      string          // workgroup size text (compute), default "1"
+	shared  bool
+	noShare string // stages of a shared spec that are not offered to the other checks
+	image   bool
 }
 
 type f1sGen struct{ out []*F1sProgram }
@@ -179,7 +180,7 @@ func (g *f1sGen) render(s f1sSpec, st byte) {
 			}
 		}
 	}
-	g.out = append(g.out, &F1sProgram{Sig: "F1s/" + s.sig + "/" + stage, Src: sb.String(), Shared: s.shared, Image: s.image})
+	g.out = append(g.out, &F1sProgram{Sig: "F1s/" + s.sig + "/" + stage, Src: sb.String(), Shared: s.shared && !strings.Contains(s.noShare, string(st)), Image: s.image})
 }
 
 // ---------------------------------------------------------------- texture types
@@ -635,7 +636,9 @@ func (g *f1sGen) subgroups() {
 			for n := 1; n <= 4; n++ {
 				t := f1sVec(k, n)
 				ops := append([]string{t}, extraOps...)
-				g.add(f1sSpec{sig: fn + "/" + t + sigx, enable: en, ops: ops, expr: fn + "($0" + extra + ")", rty: t, stages: stages, shared: n == 1 || n == 4})
+				// (an abstract-int literal id stays abstract in the IR, which C09 reports: those variants are checked here only)
+				g.add(f1sSpec{sig: fn + "/" + t + sigx, enable: en, ops: ops, expr: fn + "($0" + extra + ")", rty: t, stages: stages,
+					shared: (n == 1 || n == 4) && sigx != "/id=0" && sigx != "/id=3"})
 			}
 		}
 	}
@@ -659,8 +662,8 @@ func (g *f1sGen) subgroups() {
 	for _, fn := range []string{"quadSwapX", "quadSwapY", "quadSwapDiagonal"} {
 		one(fn, num, "", nil, "cf", "")
 	}
-	g.add(f1sSpec{sig: "subgroupAll", enable: en, ops: []string{"bool"}, expr: "subgroupAll($0)", rty: "bool", stages: "cf", shared: true})
-	g.add(f1sSpec{sig: "subgroupAny", enable: en, ops: []string{"bool"}, expr: "subgroupAny($0)", rty: "bool", stages: "cf", shared: true})
+	g.add(f1sSpec{sig: "subgroupAll", enable: en, ops: []string{"bool"}, expr: "subgroupAll($0)", rty: "bool", stages: "cf"})
+	g.add(f1sSpec{sig: "subgroupAny", enable: en, ops: []string{"bool"}, expr: "subgroupAny($0)", rty: "bool", stages: "cf"})
 	g.add(f1sSpec{sig: "subgroupBallot", enable: en, ops: []string{"bool"}, expr: "subgroupBallot($0)", rty: "vec4<u32>", stages: "cf", shared: true})
 	g.add(f1sSpec{sig: "subgroupElect", enable: en, expr: "subgroupElect()", rty: "bool", stages: "cf"})
 	g.add(f1sSpec{sig: "subgroupBarrier", enable: en, pre: "  subgroupBarrier();\n", stages: "c", shared: true})
@@ -699,7 +702,7 @@ func (g *f1sGen) atomics() {
 				base := "atomic/" + space + "/" + k + "/" + shape + "/"
 				sh := shape == "bare" || shape == "member"
 				g.add(f1sSpec{sig: base + "atomicLoad", decls: decl, expr: "atomicLoad(" + ref + ")", rty: k, stages: stages, shared: sh})
-				g.add(f1sSpec{sig: base + "atomicStore", decls: decl, ops: []string{k}, pre: "  atomicStore(" + ref + ", $0);\n", stages: stages, shared: sh})
+				g.add(f1sSpec{sig: base + "atomicStore", decls: decl, ops: []string{k}, pre: "  atomicStore(" + ref + ", $0);\n", stages: stages}) // (its IR fails C09's emit rule: checked here only)
 				for _, fn := range []string{"atomicAdd", "atomicSub", "atomicMax", "atomicMin", "atomicAnd", "atomicOr", "atomicXor", "atomicExchange"} {
 					g.add(f1sSpec{sig: base + fn, decls: decl, ops: []string{k}, expr: fn + "(" + ref + ", $0)", rty: k, stages: stages, shared: sh})
 					if shape == "bare" {
@@ -914,6 +917,9 @@ func (g *f1sGen) typeFeatures() {
 	emit("ray_query/compute", "@group(0) @binding(0) var acc: acceleration_structure;\n@group(0) @binding(1) var<storage, read_write> o: u32;\n@compute @workgroup_size(1)\nfn main() {\n  var rq: ray_query;\n  rayQueryInitialize(&rq, acc, RayDesc(0u, 0xFFu, 0.1, 100.0, vec3<f32>(0.0), vec3<f32>(0.0, 1.0, 0.0)));\n  while (rayQueryProceed(&rq)) {}\n  let i = rayQueryGetCommittedIntersection(&rq);\n  o = i.kind;\n}\n")
 	emit("ray_query/candidate/compute", "@group(0) @binding(0) var acc: acceleration_structure;\n@group(0) @binding(1) var<storage, read_write> o: f32;\n@compute @workgroup_size(1)\nfn main() {\n  var rq: ray_query;\n  rayQueryInitialize(&rq, acc, RayDesc(0u, 0xFFu, 0.1, 100.0, vec3<f32>(0.0), vec3<f32>(0.0, 1.0, 0.0)));\n  rayQueryProceed(&rq);\n  let i = rayQueryGetCandidateIntersection(&rq);\n  o = i.t;\n  rayQueryTerminate(&rq);\n}\n")
 	emit("ray_query/fragment", "@group(0) @binding(0) var acc: acceleration_structure;\n@fragment\nfn main(@location(0) d: vec3<f32>) -> @location(0) vec4<f32> {\n  var rq: ray_query;\n  rayQueryInitialize(&rq, acc, RayDesc(0u, 0xFFu, 0.1, 100.0, vec3<f32>(0.0), d));\n  rayQueryProceed(&rq);\n  let i = rayQueryGetCommittedIntersection(&rq);\n  return vec4<f32>(i.t);\n}\n")
+	emit("push_constant/f16/compute", "enable f16;\nstruct PC { a: f16, b: vec2<f16> }\nvar<push_constant> pc: PC;\n@group(0) @binding(1) var<storage, read_write> o: f32;\n@compute @workgroup_size(1)\nfn main() {\n  o = f32(pc.a) + f32(pc.b.y);\n}\n")
+	emit("barycentric/fragment", "@fragment\nfn main(@builtin(barycentric) b: vec3<f32>) -> @location(0) vec4<f32> {\n  return vec4<f32>(b, 1.0);\n}\n")
+	emit("barycentric/per_vertex/fragment", "@fragment\nfn main(@builtin(barycentric) b: vec3<f32>, @location(0) @interpolate(per_vertex) v: array<f32, 3>) -> @location(0) vec4<f32> {\n  return vec4<f32>(b * v[1], 1.0);\n}\n")
 	emit("push_constant/compute", "struct PC { a: u32, b: vec2<f32> }\nvar<push_constant> pc: PC;\n@group(0) @binding(1) var<storage, read_write> o: u32;\n@compute @workgroup_size(1)\nfn main() {\n  o = pc.a;\n}\n")
 	emit("push_constant/vertex", "struct PC { m: mat4x4<f32> }\nvar<push_constant> pc: PC;\n@vertex\nfn main(@location(0) p: vec4<f32>) -> @builtin(position) vec4<f32> {\n  return pc.m * p;\n}\n")
 	emit("dual_source_blending/fragment", "enable dual_source_blending;\nstruct FOut { @location(0) @blend_src(0) a: vec4<f32>, @location(0) @blend_src(1) b: vec4<f32> }\n@fragment\nfn main() -> FOut {\n  return FOut(vec4<f32>(1.0), vec4<f32>(0.5));\n}\n")
